@@ -500,6 +500,10 @@ func (m *ConnectMessage) decodeMessage(src []byte) (int, error) {
 		return total, err
 	}
 
+	if len(src[total:]) < 1 {
+		return total, fmt.Errorf("connect/decodeMessage: Insufficient buffer size. Expecting %d, got %d", 1, len(src[total:]))
+	}
+
 	m.version = src[total]
 	total++
 
@@ -507,6 +511,10 @@ func (m *ConnectMessage) decodeMessage(src []byte) (int, error) {
 		return total, ErrInvalidProtocolVersion
 	} else if verstr != string(m.protoName) {
 		return total, ErrInvalidProtocolVersion
+	}
+
+	if len(src[total:]) < 1 {
+		return total, fmt.Errorf("connect/decodeMessage: Insufficient buffer size. Expecting %d, got %d", 1, len(src[total:]))
 	}
 
 	m.connectFlags = src[total]
